@@ -1156,8 +1156,12 @@ func (fx *FX) mapRead(st *State, m, k Term, mt *types.Map) (Term, Term) {
 	if strings.HasPrefix(m.S, "GL_") {
 		fname := "map_get_" + sortID(ks) + "_" + sortID(vs)
 		hname := "map_has_" + sortID(ks)
-		w.Declare(fname, fmt.Sprintf("(declare-fun %s (Int %s) %s)", fname, ks, vs))
-		w.Declare(hname, fmt.Sprintf("(declare-fun %s (Int %s) Bool)", hname, ks))
+		if _, ok := fx.e.CS.Funs[fname]; !ok {
+			w.Declare(fname, fmt.Sprintf("(declare-fun %s (Int %s) %s)", fname, ks, vs))
+		}
+		if _, ok := fx.e.CS.Funs[hname]; !ok {
+			w.Declare(hname, fmt.Sprintf("(declare-fun %s (Int %s) Bool)", hname, ks))
+		}
 		return app(hname, SBool, m, k), app(fname, vs, m, k)
 	}
 	hs := fx.comp(st, "MH:"+sortID(ks), SArr(SInt, SArr(ks, SBool)))
